@@ -112,6 +112,7 @@ class Config:
         self.drop_fields = set(drop_fields)
         self.effect_calls = tuple(effect_calls)  # callee suffixes recorded as ("effect", name, args) events
         self.inline_exact = tuple(inline_exact)  # callee ids (short or full) that are inlined
+        self.effect_re = None                    # compiled regex: callees (short path) recorded as effects
         self.error_paths = error_paths           # also follow the error exits of `?`
 
 
@@ -840,6 +841,8 @@ class Evaluator:
                 return [(st._replace(fresh=st.fresh + 1), ("fresh", tag, st.fresh))]
         if f in self.cfg.recurse_to or sf in self.cfg.recurse_to:
             return [(self.emit(st, ("recurse", sf.split("::")[-1], tuple(vs[1:]))), ("lit", "()"))]
+        if self.cfg.effect_re is not None and self.cfg.effect_re.search(sf):
+            return [(self.emit(st, ("effect", sf.split("::")[-1], tuple(vs))), ("app", sf, tuple(vs)))]
         for t in self.cfg.effect_calls:
             if sf == t or sf.endswith("::" + t):
                 st2 = self.emit(st, ("effect", t.split("::")[-1], tuple(vs)))
@@ -1115,10 +1118,12 @@ def linear_form(term):
     return dict((k, v) for k, v in acc.items() if v != 0)
 
 
-def fn_paths(db, fid, **cfgkw):
+def fn_paths(db, fid, effect_re=None, **cfgkw):
     """all non-diverging paths of a function as (conds, events + return value, flow)"""
     fn = db.fn(fid)
-    ev = Evaluator(Config(db, fid, **cfgkw))
+    cfg = Config(db, fid, **cfgkw)
+    cfg.effect_re = effect_re
+    ev = Evaluator(cfg)
     out = []
     for st, v in ev.run_fn(fn):
         if st.flow in ("diverge",):
